@@ -120,14 +120,14 @@ class _MA(object):
         return SArr(a.axes, lambda idx: sym.elem_ite(bz(m(idx)), fv, g(idx)), a.dtype, a.sel, None, flat=a.flat)
 
     @staticmethod
-    def sum(a, axis=None):
+    def sum(a, axis=None, **kw):
         if not is_sym(a):
             return _np.ma.sum(a, axis=axis)
         use("np.ma.sum")
         return sym.arr_sum(a, axis)
 
     @staticmethod
-    def mean(a, axis=None):
+    def mean(a, axis=None, **kw):
         if not is_sym(a):
             return _np.ma.mean(a, axis=axis)
         return sym.arr_mean(a, axis)
@@ -260,47 +260,47 @@ class NpShim(object):
 
     # ---- reductions
     @staticmethod
-    def sum(a, axis=None):
+    def sum(a, axis=None, **kw):
         if not is_sym(a):
-            return _np.sum(a, axis=axis)
+            return _np.sum(a, axis=axis, **kw)
         use("np.sum")
         return sym.arr_sum(a, axis)
 
     @staticmethod
-    def nansum(a, axis=None):
+    def nansum(a, axis=None, **kw):
         if not is_sym(a):
             return _np.nansum(a, axis=axis)
         use("np.nansum")
         return sym.arr_sum(a, axis, skip_nan=True)
 
     @staticmethod
-    def mean(a, axis=None):
+    def mean(a, axis=None, **kw):
         if not is_sym(a):
-            return _np.mean(a, axis=axis)
+            return _np.mean(a, axis=axis, **kw)
         use("np.mean")
         if isinstance(a, (SNum, SBool)):
             return _num(a)
         return sym.arr_mean(a, axis)
 
     @staticmethod
-    def nanmean(a, axis=None):
+    def nanmean(a, axis=None, **kw):
         if not is_sym(a):
-            return _np.nanmean(a, axis=axis)
+            return _np.nanmean(a, axis=axis, **kw)
         use("np.nanmean")
         return sym.arr_mean(a, axis, skip_nan=True)
 
     @staticmethod
-    def var(a, axis=None):
+    def var(a, axis=None, **kw):
         if not is_sym(a):
             return _np.var(a, axis=axis)
         use("np.var")
         if axis is not None:
-            raise Unsupported("var along an axis")
+            return sym.along_axis(a, axis, lambda sub: NpShim.var(sub))
         m = sym.arr_mean(a)
         return sym.arr_mean((a - m) ** 2)
 
     @staticmethod
-    def std(a, axis=None):
+    def std(a, axis=None, **kw):
         if not is_sym(a):
             return _np.std(a, axis=axis)
         use("np.std")
@@ -325,27 +325,29 @@ class NpShim(object):
 
     # opaque functionals of an array (congruent in their argument)
     @staticmethod
-    def _functional(name, a, params=()):
+    def _functional(name, a, params=(), axis=None):
         use("np." + name)
+        if axis is not None and isinstance(a, SArr) and (len(a.axes) > 1):
+            return sym.along_axis(a, axis, lambda sub: sym.fn_atom(name, sub, params))
         return sym.fn_atom(name, a, params)
 
     @staticmethod
-    def median(a, axis=None):
+    def median(a, axis=None, **kw):
         if not is_sym(a):
             return _np.median(a, axis=axis)
-        return NpShim._functional("median", a, (axis,))
+        return NpShim._functional("median", a, (), axis)
 
     @staticmethod
-    def min(a, axis=None):
+    def min(a, axis=None, **kw):
         if not is_sym(a):
             return _np.min(a, axis=axis)
-        return NpShim._functional("min", a, (axis,))
+        return NpShim._functional("min", a, (), axis)
 
     @staticmethod
-    def max(a, axis=None):
+    def max(a, axis=None, **kw):
         if not is_sym(a):
             return _np.max(a, axis=axis)
-        return NpShim._functional("max", a, (axis,))
+        return NpShim._functional("max", a, (), axis)
 
     @staticmethod
     def percentile(a, q, axis=None, **k):
@@ -353,7 +355,15 @@ class NpShim(object):
             return _np.percentile(a, q, axis=axis, **k)
         if is_sym(q):
             raise Unsupported("symbolic percentile level")
-        return NpShim._functional("percentile", a, (float(q), axis))
+        return NpShim._functional("percentile", a, (float(q),), axis)
+
+    @staticmethod
+    def quantile(a, q, axis=None, method="linear", **k):
+        if not any_sym((a, q)):
+            return _np.quantile(a, q, axis=axis, method=method, **k)
+        if is_sym(q):
+            raise Unsupported("symbolic quantile level")
+        return NpShim._functional("quantile", a, (float(q), method), axis)
 
     @staticmethod
     def sort(a, axis=-1, **k):
